@@ -117,9 +117,131 @@ theorem numbers_no_nullish (vs : List (Option Val)) (ns : List PyNum) (h : numbe
 theorem nulled_isEmpty (vs : List (Option Val)) : (nulled vs).isEmpty = vs.isEmpty := by
   cases vs <;> rfl
 
-/-- `$add` / `$multiply` on operands without booleans and dates -/
+/-- the loop of `$add` on numbers (no booleans): the same numbers, the date set aside is kept -/
+theorem checkAdd_numbers (vs : List (Option Val)) (ns : List PyNum) (d : Option Int)
+    (h : numbers vs = some ns) : checkAdd (nulled vs) d = .ok (some (d, ns)) := by
+  induction vs generalizing ns with
+  | nil => simp [numbers] at h; subst h; cases d <;> rfl
+  | cons v r ih =>
+    cases v with
+    | none => simp [numbers] at h
+    | some x =>
+      simp only [numbers] at h
+      cases hx : number x with
+      | none => simp [hx] at h
+      | some n =>
+        cases hr : numbers r with
+        | none => simp [hx, hr] at h
+        | some ms =>
+          simp only [hx, hr, Option.some.injEq] at h
+          subst h
+          have := ih ms hr
+          simp only [nulled] at this
+          cases x <;> simp [number] at hx <;> subst hx <;> cases d <;>
+            simp [nulled, checkAdd, toPyNum, bind, Except.bind, pure, Except.pure, this]
+
+/-- a null or missing operand among numbers: the loop of `$add` returns None -/
+theorem checkAdd_nullish (vs : List (Option Val)) (d : Option Int) (hany : vs.any nullish = true)
+    (hall : (vs.filter (fun v => !nullish v)).all (fun v => (v.bind number).isSome) = true) :
+    checkAdd (nulled vs) d = .ok none := by
+  induction vs with
+  | nil => simp at hany
+  | cons v r ih =>
+    cases v with
+    | none => cases d <;> simp [nulled, checkAdd]
+    | some x =>
+      cases x with
+      | null => cases d <;> simp [nulled, checkAdd]
+      | int i =>
+        simp only [List.any_cons, nullish, Bool.false_or] at hany
+        have hall' : (r.filter (fun v => !nullish v)).all (fun v => (v.bind number).isSome) = true := by
+          simpa [List.filter_cons, nullish, number] using hall
+        have := ih hany hall'
+        simp only [nulled] at this
+        cases d <;>
+          simp [nulled, checkAdd, toPyNum, bind, Except.bind, pure, Except.pure, this]
+      | dbl m e =>
+        simp only [List.any_cons, nullish, Bool.false_or] at hany
+        have hall' : (r.filter (fun v => !nullish v)).all (fun v => (v.bind number).isSome) = true := by
+          simpa [List.filter_cons, nullish, number] using hall
+        have := ih hany hall'
+        simp only [nulled] at this
+        cases d <;>
+          simp [nulled, checkAdd, toPyNum, bind, Except.bind, pure, Except.pure, this]
+      | _ => simp [List.filter_cons, nullish, number] at hall
+
+theorem dates_nil_filter (vs : List (Option Val)) (h : dates vs = []) :
+    vs.filter (fun v => !isDate v) = vs := by
+  induction vs with
+  | nil => rfl
+  | cons v r ih =>
+    cases v with
+    | none =>
+      simp only [dates] at h
+      rw [List.filter_cons_of_pos (by simp [isDate]), ih h]
+    | some x =>
+      cases x with
+      | date u o =>
+        cases o with
+        | none => simp [dates] at h
+        | some off =>
+          simp only [dates] at h
+          rw [List.filter_cons_of_pos (by simp [isDate]), ih h]
+      | _ =>
+        all_goals
+          simp only [dates] at h
+          rw [List.filter_cons_of_pos (by simp [isDate]), ih h]
+
+/-- exactly one (naive) date among numbers: the loop of `$add` sets it aside -/
+theorem checkAdd_date (vs : List (Option Val)) (u : Int) (ns : List PyNum)
+    (hd : dates vs = [u]) (hn : numbers (vs.filter (fun v => !isDate v)) = some ns) :
+    checkAdd (nulled vs) none = .ok (some (some u, ns)) := by
+  induction vs generalizing ns with
+  | nil => simp [dates] at hd
+  | cons v r ih =>
+    cases v with
+    | none => simp [List.filter_cons, isDate, numbers] at hn
+    | some x =>
+      cases x with
+      | date u' o =>
+        cases o with
+        | none =>
+          simp only [dates, List.cons.injEq] at hd
+          obtain ⟨rfl, hd'⟩ := hd
+          rw [List.filter_cons_of_neg (by simp [isDate]), dates_nil_filter r hd'] at hn
+          have := checkAdd_numbers r ns (some u') hn
+          simp only [nulled] at this
+          simp [nulled, checkAdd, this]
+        | some off => simp [List.filter_cons, isDate, numbers, number] at hn
+      | int i =>
+        simp only [dates] at hd
+        rw [List.filter_cons_of_pos (by simp [isDate])] at hn
+        simp only [numbers, number] at hn
+        cases hr : numbers (r.filter (fun v => !isDate v)) with
+        | none => simp [hr] at hn
+        | some ms =>
+          simp only [hr, Option.some.injEq] at hn
+          subst hn
+          have := ih ms hd hr
+          simp only [nulled] at this
+          simp [nulled, checkAdd, toPyNum, bind, Except.bind, pure, Except.pure, this]
+      | dbl m e =>
+        simp only [dates] at hd
+        rw [List.filter_cons_of_pos (by simp [isDate])] at hn
+        simp only [numbers, number] at hn
+        cases hr : numbers (r.filter (fun v => !isDate v)) with
+        | none => simp [hr] at hn
+        | some ms =>
+          simp only [hr, Option.some.injEq] at hn
+          subst hn
+          have := ih ms hd hr
+          simp only [nulled] at this
+          simp [nulled, checkAdd, toPyNum, bind, Except.bind, pure, Except.pure, this]
+      | _ => all_goals (simp [List.filter_cons, isDate, numbers, number] at hn)
+
+/-- `$add` / `$multiply` on operands without booleans (`$add`: at most one date) -/
 theorem nary_pure (k : String) (hk : k = "$add" ∨ k = "$multiply") (vs : List (Option Val))
-    (hd : vs.any isDateO = false) (r : Val) (hs : arithN k vs = .ok r) :
+    (r : Val) (hs : arithN k vs = .ok r) :
     naryArith k (nulled vs) = .ok r := by
   unfold arithN at hs
   by_cases he : vs.isEmpty = true
@@ -131,8 +253,9 @@ theorem nary_pure (k : String) (hk : k = "$add" ∨ k = "$multiply") (vs : List 
       split at hs
       · rename_i hall
         cases hs
-        simp [naryArith, nulled_isEmpty, he', checkNums_nullish vs hn hall, bind, Except.bind,
-          pure, Except.pure]
+        rcases hk with rfl | rfl <;>
+          simp [naryArith, nulled_isEmpty, he', checkNums_nullish vs hn hall,
+            checkAdd_nullish vs none hn hall, bind, Except.bind, pure, Except.pure]
       · simp [unmodelled] at hs
     · have hn' : vs.any nullish = false := by simpa using hn
       simp only [hn', Bool.false_eq_true, if_false] at hs
@@ -140,33 +263,41 @@ theorem nary_pure (k : String) (hk : k = "$add" ∨ k = "$multiply") (vs : List 
       | none =>
         simp only [hnum] at hs
         rcases hk with rfl | rfl
-        · -- `$add` with a non-number: only dates could give a value, and there are none
-          have : dates vs = [] := by
-            clear hs hnum hn hn' he he'
-            induction vs with
-            | nil => rfl
-            | cons v t ih =>
-              simp only [List.any_cons, Bool.or_eq_false_iff] at hd
-              have ht := ih hd.2
-              cases v with
-              | none => simpa [dates] using ht
-              | some x =>
-                cases x with
-                | date u o => simp [isDateO] at hd
-                | _ => simpa [dates] using ht
-          simp [this] at hs
+        · -- `$add` with a non-number: one date and numbers
+          simp only [bne_self_eq_false, Bool.false_eq_true, if_false] at hs
+          cases hds : dates vs with
+          | nil => simp [hds] at hs
+          | cons u t =>
+            cases t with
+            | cons u2 t2 => simp [hds] at hs
+            | nil =>
+              cases hnn : numbers (vs.filter (fun v => !isDate v)) with
+              | none => simp [hds, hnn] at hs
+              | some ns =>
+                simp only [hds, hnn] at hs
+                have hc := checkAdd_date vs u ns hds hnn
+                simp only [naryArith, nulled_isEmpty, he', Bool.false_eq_true, if_false, if_true, hc,
+                  bind, Except.bind, ← sumAll_eq]
+                simp only [bind, Except.bind] at hs
+                cases hsum : sumAll ns (.i 0) with
+                | error e => simp [hsum] at hs
+                | ok tot =>
+                  simp only [hsum] at hs ⊢
+                  rw [← hs]
+                  cases tot <;> rfl
         · simp at hs
       | some ns =>
         simp only [hnum] at hs
         have hc := checkNums_numbers vs ns hnum
+        have hca := checkAdd_numbers vs ns none hnum
         rcases hk with rfl | rfl
         · simp only [if_true] at hs
-          simp [naryArith, nulled_isEmpty, he', hc, ← sumAll_eq, bind, Except.bind, pure,
+          simp [naryArith, nulled_isEmpty, he', hca, ← sumAll_eq, bind, Except.bind, pure,
             Except.pure] at hs ⊢
           exact hs
         · have hne : ¬ ("$multiply" = "$add") := by decide
           simp only [hne, if_false] at hs
-          simp only [naryArith, nulled_isEmpty, he', Bool.false_eq_true, if_false, hc, bind,
+          simp only [naryArith, nulled_isEmpty, he', Bool.false_eq_true, if_false, hne, hc, bind,
             Except.bind, pure, Except.pure]
           cases vs with
           | nil => simp at he
@@ -188,9 +319,41 @@ theorem isNull_getD (a : Option Val) : isNull (a.getD .null) = nullish a := by
   | none => rfl
   | some x => cases x <;> rfl
 
+theorem pyMod_eq (p q : PyNum) (hq : q.isZero = false) :
+    pyMod p q = intRes Int.tmod p q (pyFmod p q) := by
+  cases p <;> cases q <;> try rfl
+  rename_i a b
+  have hb : (b == 0) = false := by simpa [PyNum.isZero] using hq
+  simp [pyMod, intRes, hb]
+
+theorem pyPowT_ok (p q : PyNum) (r : Val)
+    (hs : (match p, q with
+     | .i a, .i b => if (b ≥ 0 && b ≤ 64) = true then
+         (if (a ^ b.toNat).natAbs < 2 ^ 63 then (.ok (.int (a ^ b.toNat)) : R Val) else unmodelled)
+       else unmodelled
+     | _, _ => pyPow p q) = .ok r) : pyPowT p q = .ok r := by
+  cases p with
+  | f m e => cases q <;> exact hs
+  | i a =>
+    cases q with
+    | f m e => exact hs
+    | i b =>
+      simp only at hs
+      split at hs
+      · rename_i hb
+        split at hs
+        · rename_i hlt
+          simp only [Bool.and_eq_true, decide_eq_true_eq] at hb
+          have h1 : -(2 : Int) ^ 63 ≤ a ^ b.toNat := by omega
+          have h2 : a ^ b.toNat < (2 : Int) ^ 63 := by omega
+          simp only [pyPowT, hb.1, hb.2, h1, h2, decide_true, Bool.and_self, if_true]
+          exact hs
+        · simp [unmodelled] at hs
+      · simp [unmodelled] at hs
+
 /-- numbers on both sides -/
 theorem binary_num (k : String) (p q : PyNum) (x y : Val) (hx : number x = some p)
-    (hy : number y = some q) (hint : (k = "$mod" ∨ k = "$pow") → ¬ (isIntO (some x) = true ∧ isIntO (some y) = true))
+    (hy : number y = some q)
     (hk : k = "$subtract" ∨ k = "$divide" ∨ k = "$mod" ∨ k = "$pow")
     (r : Val) (hs : numOp k p q = .ok r) :
     binaryArith k x y = .ok r := by
@@ -215,22 +378,14 @@ theorem binary_num (k : String) (p q : PyNum) (x y : Val) (hx : number x = some 
     simp only [h1, h2, if_false, if_true] at hs
     split at hs
     · cases hs
-    · have hi := hint (Or.inl rfl)
-      have : intRes Int.tmod p q (pyFmod p q) = pyFmod p q := by
-        cases p <;> cases q <;> try rfl
-        exfalso; apply hi
-        cases x <;> simp [number] at hx <;> cases y <;> simp [number] at hy <;> simp [isIntO]
-      rw [this] at hs
-      simp [binaryArith, hnx, hny, htx, hty, hs]
+    · rename_i hz
+      have hz' : q.isZero = false := by simpa using hz
+      simp [binaryArith, hnx, hny, htx, hty, pyMod_eq p q hz', hs]
   · have h1 : ¬ ("$pow" = "$subtract") := by decide
     have h2 : ¬ ("$pow" = "$divide") := by decide
     have h3 : ¬ ("$pow" = "$mod") := by decide
     simp only [h1, h2, h3, if_false, if_true] at hs
-    have hi := hint (Or.inr rfl)
-    have : pyPow p q = .ok r := by
-      cases p <;> cases q <;> try exact hs
-      exfalso; apply hi
-      cases x <;> simp [number] at hx <;> cases y <;> simp [number] at hy <;> simp [isIntO]
+    have := pyPowT_ok p q r hs
     simp [binaryArith, hnx, hny, htx, hty, this]
 
 theorem dateMinus_pure (u : Int) (y : Val) (hb : isBoolO (some y) = false) (r : Val)
@@ -248,7 +403,6 @@ theorem dateMinus_pure (u : Int) (y : Val) (hb : isBoolO (some y) = false) (r : 
 /-- the binary arithmetic operators on operands without booleans -/
 theorem binary_pure (k : String) (hk : k = "$subtract" ∨ k = "$divide" ∨ k = "$mod" ∨ k = "$pow")
     (a b : Option Val) (hbb : isBoolO b = false)
-    (hint : (k = "$mod" ∨ k = "$pow") → ¬ (isIntO a = true ∧ isIntO b = true))
     (r : Val) (hs : arith2 k a b = .ok r) :
     binaryArith k (a.getD .null) (b.getD .null) = .ok r := by
   unfold arith2 at hs
@@ -286,13 +440,13 @@ theorem binary_pure (k : String) (hk : k = "$subtract" ∨ k = "$divide" ∨ k =
           cases hy : number y with
           | some q =>
             simp only [hy] at hs
-            exact binary_num k (.i i) q _ y rfl hy hint hk r (by simpa [number] using hs)
+            exact binary_num k (.i i) q _ y rfl hy hk r (by simpa [number] using hs)
           | none => simp only [hy] at hs; simp [number] at hs
         | dbl m e =>
           cases hy : number y with
           | some q =>
             simp only [hy] at hs
-            exact binary_num k (.f m e) q _ y rfl hy hint hk r (by simpa [number] using hs)
+            exact binary_num k (.f m e) q _ y rfl hy hk r (by simpa [number] using hs)
           | none => simp only [hy] at hs; simp [number] at hs
         | _ => all_goals (simp [number] at hs)
 
